@@ -292,3 +292,24 @@ func init() {
 func abciEnd(h int64) abci.RequestEndBlock { return abci.RequestEndBlock{Height: h} }
 
 func abciBegin(h tmproto.Header) abci.RequestBeginBlock { return abci.RequestBeginBlock{Header: h} }
+
+// TestC15_oracle drives the band-oracle -> market begin-block pipeline with generated rate sequences
+// (zero-rate outages, late and missing results, every window size): the unwrapped market and
+// band-oracle hooks must return normally. The generator and runner are those of C17's pipeline sub;
+// here only the absence of a panic is the point.
+func TestC15_oracle(t *testing.T) {
+	r := rec.New("C15", "oracle")
+	t.Cleanup(r.Flush)
+	rapid.Check(t, func(rt *rapid.T) {
+		c := c17GenPipeline(rt)
+		r.Guard(func() { c17RunPipeline(rt, r, c) })
+	})
+}
+
+func init() {
+	replayers["C15.oracle"] = func(t *testing.T, r *rec.Rec, raw json.RawMessage) {
+		var c c17PCase
+		_ = json.Unmarshal(raw, &c)
+		c17RunPipeline(t, r, &c)
+	}
+}
